@@ -406,6 +406,9 @@ Ltac term_step :=
   | |- terminates OOB => apply term_oob
   | |- terminates (bind (detach_path _ _ _) _) => apply bind_term; [apply detach_path_term | intros ? _]
   | |- terminates (bind (finish_add _ _ _ _) _) => apply bind_term; [apply finish_add_term | intros ? _]
+  | |- terminates (bind (compare_json (node_depth ?a) ?a _ _) _) => apply bind_term; [apply compare_json_total; lia | intros ? _]
+  | |- terminates (bind (bind _ _) _) => apply bind_term; [ | intros ? _]
+  | |- terminates (let (_, _) := ?x in _) => destruct x
   | |- terminates (bind (Ok _) _) => cbn [bind]
   | |- terminates (bind (if ?c then _ else _) _) => destruct c
   | |- terminates (match ?x with _ => _ end) => destruct x
@@ -419,12 +422,7 @@ Proof.
   destruct (negb (is_string pathn)); [term_leaf|].
   apply bind_term; [apply decode_patch_operation_term|]. intros opc _.
   destruct opc; try term_leaf.
-  all: try (destruct (n_vstr pathn) as [pstr|]; [|term_leaf]; cbn [andb orb]; repeat term_step).
-  (* TEST *)
-  destruct (match n_vstr pathn with Some p => get_item_from_pointer object p cs | None => None end) as [tp|]; [|term_leaf].
-  destruct (get_object_item patch (Some s_value) cs) as [[vi v]|]; [|term_leaf].
-  destruct (subtree object tp) as [a|]; [|term_leaf].
-  apply bind_term; [apply compare_json_total; lia|]. intros [[r a'] v'] _. term_leaf.
+  all: cbn [andb orb]; repeat term_step.
 Qed.
 
 Lemma apply_loop_term : forall ps object cs, terminates (apply_loop object ps cs).
